@@ -74,6 +74,17 @@ static Boolean CutRep(
     }
 }
 
+/* code length after appending Rep elements of Size bytes each; a product that
+   does not fit is mapped to a length that SetMaxCodeLen() refuses, instead of
+   wrapping around to a small one */
+
+static LongWord RepCodeLen(LongInt Rep, LongWord Size) {
+    if ((Rep > 0) && Size && ((LongWord)Rep > MaxCodeLen_Max / Size)) {
+        return MaxCodeLen_Max + 1;
+    }
+    return CodeLen + (Rep * Size);
+}
+
 static void PutByte(Byte Value) {
     if ((ListGran() == 1) || (!(CodeLen & 1))) {
         BAsmCode[CodeLen] = Value;
@@ -131,7 +142,7 @@ void DecodeMotoBYT(Word Index) {
                         && !RangeCheck(t.Contents.Int, Int8)) {
                         WrStrErrorPos(ErrNum_OverRange, &Arg);
                         OK = False;
-                    } else if (SetMaxCodeLen(CodeLen + Rep)) {
+                    } else if (SetMaxCodeLen(RepCodeLen(Rep, 1))) {
                         WrError(ErrNum_CodeOverflow);
                         OK = False;
                     } else {
@@ -158,7 +169,7 @@ void DecodeMotoBYT(Word Index) {
                     l = t.Contents.str.len;
                     TranslateString(t.Contents.str.p_str, l);
 
-                    if (SetMaxCodeLen(CodeLen + (Rep * l))) {
+                    if (SetMaxCodeLen(RepCodeLen(Rep, l))) {
                         WrError(ErrNum_CodeOverflow);
                         OK = False;
                     } else {
@@ -281,7 +292,7 @@ void DecodeMotoADR(Word Index) {
                     break;
                 }
 
-                if (SetMaxCodeLen(CodeLen + ((Cnt * Rep) << 1))) {
+                if (SetMaxCodeLen(RepCodeLen(Rep, Cnt << 1))) {
                     WrError(ErrNum_CodeOverflow);
                     OK = False;
                     break;
@@ -346,7 +357,7 @@ static void DecodeFCC(Word Index) {
 
             EvalStrStringExpression(&Arg, &OK, SVal);
             if (OK) {
-                if (SetMaxCodeLen(CodeLen + Rep * strlen(SVal))) {
+                if (SetMaxCodeLen(RepCodeLen(Rep, strlen(SVal)))) {
                     WrError(ErrNum_CodeOverflow);
                     OK = False;
                 } else {
@@ -893,7 +904,7 @@ void DecodeMotoDC(tSymbolSize OpSize, Boolean Turn) {
                         && !RangeCheck(t.Contents.Int, IntTypeEnum)) {
                     WrError(ErrNum_OverRange);
                     OK = False;
-                } else if (SetMaxCodeLen(CodeLen + (Rep * WSize))) {
+                } else if (SetMaxCodeLen(RepCodeLen(Rep, WSize))) {
                     WrError(ErrNum_CodeOverflow);
                     OK = False;
                 } else {
@@ -910,7 +921,7 @@ void DecodeMotoDC(tSymbolSize OpSize, Boolean Turn) {
                 } else if (!FloatRangeCheck(t.Contents.Float, FloatTypeEnum)) {
                     WrError(ErrNum_OverRange);
                     OK = False;
-                } else if (SetMaxCodeLen(CodeLen + (Rep * WSize))) {
+                } else if (SetMaxCodeLen(RepCodeLen(Rep, WSize))) {
                     WrError(ErrNum_CodeOverflow);
                     OK = False;
                 } else {
@@ -935,7 +946,7 @@ void DecodeMotoDC(tSymbolSize OpSize, Boolean Turn) {
                 }
                 if (!EnterInt) {
                     if (ConvertFloat && EnterFloat) {
-                        if (SetMaxCodeLen(CodeLen + (Rep * WSize * t.Contents.str.len))) {
+                        if (SetMaxCodeLen(RepCodeLen(Rep, WSize * t.Contents.str.len))) {
                             WrError(ErrNum_CodeOverflow);
                             OK = False;
                         } else {
@@ -963,7 +974,7 @@ void DecodeMotoDC(tSymbolSize OpSize, Boolean Turn) {
                         WrError(ErrNum_FloatButString);
                         OK = False;
                     }
-                } else if (SetMaxCodeLen(CodeLen + (Rep * WSize * t.Contents.str.len))) {
+                } else if (SetMaxCodeLen(RepCodeLen(Rep, WSize * t.Contents.str.len))) {
                     WrError(ErrNum_CodeOverflow);
                     OK = False;
                 } else {
